@@ -147,7 +147,7 @@ var commitCmd = &cobra.Command{
 			return fmt.Errorf("%w: %s", ErrIOHandling, dirName)
 		}
 
-		if len(files) == 0 { // no commit before
+		if len(files) == 0 || client.Head.Commit == nil { // no commit before (on any branch, or on the branch HEAD names)
 			if client.Idx.EntryNum == 0 {
 				return ErrNothingToCommit
 			}
